@@ -273,7 +273,7 @@ def run(ctx):
                 "histories (scopes %s), ALL replayed step by step on the real Antispammer (%d steps, %d ban transitions, %d unbans, "
                 "%d steps with a determined verdict), and a seeded sample of %d of them through the real Pipeline.In with the cri "
                 "decoder; %d histories of the shape burst / >= unban+1 maintenance rounds / burst on a RUNNING pipeline whose own ticker "
-                "schedules Maintenance (interval 25 ms, pause 3 x rounds + 300 ms; %d of them saw the ban and then the admission). matchrule: %d (rule set, data) cases, each through the real IsSpam as an exception on the event bytes, as an "
+                "schedules Maintenance (interval 20 ms, pause 10 x rounds + 300 ms; %d of them saw the ban and then the admission). matchrule: %d (rule set, data) cases, each through the real IsSpam as an exception on the event bytes, as an "
                 "exception on the source name and as an unlimited do_if rule. Non-trivial = histories in which the real antispammer banned a source + size cases that were cut and "
                 "delivered or sat exactly at the limit." %
                 (n_size, rp["size"]["executed"], rp["size"]["delivered"], rp["size"]["cut_delivered"], rp["size"]["kept_at_limit"],
@@ -295,7 +295,7 @@ def run(ctx):
         "matchrule: alphabet {a, b, A}, values of length 1..2, data of length 0..3, one or two rules per set; the do_if variant of a "
         "rule (pipeline/doif, decided under C14) is compared with the same declarative meaning",
         "scheduled-maintenance family: only admissions are asserted (records the statement says cannot be refused, in particular "
-        "after a pause of 3 x the silent rounds + 300 ms); nothing is ever required to be still banned",
+        "after a pause of 10 x the silent rounds + 300 ms); nothing is ever required to be still banned",
         "IsSpam/Maintenance are replayed sequentially; concurrent callers of one source (unsynchronised read-modify-write) are not covered",
         "ban state = counter >= the source's threshold, read in-package after every step (Dump() cross-checked)",
     ]
